@@ -40,6 +40,7 @@ func C02(c *Ctx) {
 	r.Rule("R02.8", childReceiptFSMText)
 	r.Rule("R02.9", "a begun transaction names what it was before: the StatusChange that a Begin* entry of the transaction manager marshals for the interchain contract has its PrevStatus assigned on every path from its creation (or its last reset) to the Marshal - with -1 where the record did not exist, with the stored status otherwise. The zero value of PrevStatus is BEGIN: a change BEGIN -> BEGIN raises no notify flag, so an accepted request (counters advanced, index recorded) is listed in no delivery set.")
 	c.c02PrevStatus()
+	c.c02WrapperMerge()
 	r.Rule("R02.10", "exactly once also for unordered destinations (shared with C04 R04.12): see R04.12 - a request id that was accepted before is rejected; otherwise the replay is accepted, counted and delivered a second time.")
 	c.requestFreshness("R02.10")
 	c.childReceiptThroughFSM("R02.8")
